@@ -210,6 +210,17 @@ func (e *Env) EndBlock() []byte {
 			m.AfterBlock(e, q)
 		}
 	}
+	if len(q.ParamsMismatch) > 0 {
+		// the keeper reports parameters the store does not hold (the models use the stored ones).
+		// Owned by the properties about parameters taking effect (C16) and the fee parameters (C06);
+		// elsewhere it is counted and shows through the property's own rules.
+		e.C.Count("params_reported_vs_stored_mismatches", 1)
+		if e.C.Prop == "C16" || e.C.Prop == "C06" {
+			for _, mm := range q.ParamsMismatch {
+				e.C.Violate("reported-params-differ-from-store", strings.SplitN(mm, ":", 2)[0], "at height %d the module answers with parameters that are not the stored ones - %s | trace: %s", q.Height, oneLine(mm), strings.Join(e.TraceTail(4), " ; "))
+			}
+		}
+	}
 	e.Last = q
 	return hash
 }
